@@ -259,7 +259,7 @@ mod imp {
     /// `Clone::clone_from` is part of "can be cloned": other values of the same type (generated from shifted
     /// views of the same entropy) are overwritten in place with `field`, and a clone of `field` with them.
     fn cf<'a, F: Arbitrary<'a> + Clone + PartialEq>(base: &'a [u8], field: &F) -> bool {
-        for k in [0usize, 1, 2, 3, 5, 8, 13, 21, 34] {
+        for k in [1usize, 3, 8, 21] {
             if k > base.len() {
                 break;
             }
